@@ -690,10 +690,12 @@ Definition sym_run (c : ctl) : result := sym_run_from st_init st_init c.
 
 (** ---- sequences of pairings through the SAME two stacks ----
     What survives [reset_state()] (called first by [initiate_pairing] and [on_pairing_request]) and
-    can therefore reach the next procedure: the SMP state code, the passkey counter, the key
-    registered for the connection, the LinkLayer's crypto manager ([LinkLayer.__llcm], ONE attribute
-    for all connection handles), the encrypted flag.  The database and the list of set_encryption
-    calls are logs: each procedure is observed by what it appends. *)
+    can therefore reach the next procedure on the SAME connection: the SMP state code, the passkey
+    counter, the key registered for the connection, the LinkLayer's crypto manager of that
+    connection handle ([LinkLayer.__llcm] is a dictionary keyed by connection handle: assigned in
+    on_enc_req / on_enc_rsp, read with [.get(conn_handle)] in on_start_enc_req, popped in
+    on_disconnect), the encrypted flag.  The database and the list of set_encryption calls are
+    logs: each procedure is observed by what it appends. *)
 Definition start_state (st cnt : N) (enckey llcm : option term) (encrypted : bool) : sst :=
   {| s_state := st; s_fail := None; s_exc := false; s_method := None;
      s_tk := zero16; s_stk := zero16; s_ltk := None; s_rand := None; s_ediv := None;
@@ -703,14 +705,19 @@ Definition start_state (st cnt : N) (enckey llcm : option term) (encrypted : boo
      s_p_ltk := None; s_p_rand := None; s_p_ediv := None; s_p_irk := None; s_p_addr := false; s_p_csrk := None;
      s_enckey := enckey; s_llcm := llcm; s_setenc := []; s_encrypted := encrypted; s_db := [] |}.
 
-(** the next procedure runs on the same connection, or on a new connection handle of the same stacks
-    (new L2CAP/SMP instances and connection record, same LinkLayer) *)
-Inductive mode := SameConn | NewConn.
+(** the next procedure runs on the same connection; or on a new connection handle of the same stacks
+    (new L2CAP/SMP instances and connection record; no crypto manager is registered for a new
+    handle); or on the same handle after a disconnection (on_disconnect drops the L2CAP/SMP
+    instances, the connection record and the handle's crypto manager) and a new connection.
+    Procedures on DIFFERENT handles share nothing, so interleaving them is the same as running
+    each from [carry NewConn]. *)
+Inductive mode := SameConn | NewConn | Reconnect.
 
 Definition carry (m : mode) (s : sst) : sst :=
   match m with
   | SameConn => start_state (s_state s) (s_cnt s) (s_enckey s) (s_llcm s) (s_encrypted s)
-  | NewConn => start_state 0 1 None (s_llcm s) false
+  | NewConn => start_state 0 1 None None false
+  | Reconnect => start_state 0 1 None None false
   end.
 
 (** ---- outcomes ---- *)
